@@ -667,3 +667,47 @@ def neighbor_pairs_sets(rng):
     while True:
         xs = [rng.choice(["A", "B", "AB", "BA", "AA", "ABC", "CBA", "AAB"]) for _ in range(rng.randint(0, 7))]
         yield {"seqs": seq([S(x) for x in xs], "list"), "neighborhood": py(rng.choice(["prs.distance.hamming_neighbors", "prs.distance.levenshtein_neighbors"]))}
+
+
+# ---- C09: the TcrLevenshtein family
+_TCRLEV = ["AlphaCdr3Levenshtein", "BetaCdr3Levenshtein", "Cdr3Levenshtein", "AlphaCdrLevenshtein", "BetaCdrLevenshtein", "CdrLevenshtein"]
+_TRAV = ["TRAV1-1*01", "TRAV12-2*01", "TRAV40*01", "TRAV26-1*01"]
+_TRBV = ["TRBV19*01", "TRBV2*01", "TRBV7-2*01", "TRBV28*01"]
+_CDR3 = ["CASSF", "CASSLF", "CAVSF", "", "CASSIRSSYEQYF", "CAF"]
+
+
+def _tcr_metric(rng, cls=None):
+    cls = cls or rng.choice(_TCRLEV)
+    kw = {"insertion_weight": rng.choice([1, 1, 2]), "deletion_weight": rng.choice([1, 1, 3]), "substitution_weight": rng.choice([1, 2])}
+    if cls in ("Cdr3Levenshtein", "CdrLevenshtein"):
+        kw.update(alpha_weight=rng.choice([1, 2]), beta_weight=rng.choice([1, 3]))
+    if cls.endswith("CdrLevenshtein"):
+        kw.update(cdr1_weight=rng.choice([1, 2]), cdr2_weight=rng.choice([1, 3]), cdr3_weight=rng.choice([1, 2]))
+    return py(f"prs.metric.tcr_metric.{cls}(**{kw!r})"), cls
+
+
+def _tcr_table(rng, layout, n, index=True):
+    cols = {"TRAV": _TRAV, "TRBV": _TRBV, "CDR3A": _CDR3, "CDR3B": _CDR3, "note": ["x", "y"], "x": ["1"]}
+    d = {c: [rng.choice(cols[c]) for _ in range(n)] for c in layout}
+    idx = rng.choice([None, list(range(5, 5 + n)), [7] * n]) if index else None
+    return py(f"pd.DataFrame({d!r}" + (f", index={idx!r})" if idx is not None else ")"))
+
+
+@scope("tcrlev_cdist")
+def tcrlev_cdist(rng):
+    layouts = [["TRAV", "CDR3A", "TRBV", "CDR3B"], ["TRBV", "CDR3B", "note"], ["CDR3A", "TRAV"]]
+    for _ in range(400):
+        m, cls = _tcr_metric(rng)
+        la = rng.choice(layouts + [["x"]])
+        rec = {"self": m, "anchors": _tcr_table(rng, la, rng.randint(0, 3)), "comparisons": _tcr_table(rng, rng.choice(layouts), rng.randint(0, 3))}
+        if rng.random() < 0.05:
+            rec["anchors"] = seq([S("CASSF")], "list")
+        yield rec
+
+
+@scope("tcrlev_pdist")
+def tcrlev_pdist(rng):
+    layouts = [["TRAV", "CDR3A", "TRBV", "CDR3B"], ["TRBV", "CDR3B", "note"], ["CDR3A", "TRAV"]]
+    for _ in range(300):
+        m, cls = _tcr_metric(rng)
+        yield {"self": m, "instances": _tcr_table(rng, rng.choice(layouts), rng.randint(0, 4))}
